@@ -27,7 +27,7 @@ MANIFEST = {
             "norm-selection table of pdgssvx with dlangs exact; info=n+1 <=> rcond<eps with solve/refine still called; "
             "dPivotGrowth = min over the leading columns (nested supernode loops = flat loop). Tie: bit-exact PrimFloat "
             "replay of dlacon_/dgscon/dlangs/dPivotGrowth on real runs + exact-rational oracle with an explicit rounding slack.",
-    "note": "s/c/z are tied at K-pred level only (oracle in exact rationals); complex pivot growth uses the library's "
+    "note": "s/c/z are tied at K-pred level (oracle in exact rationals) and through every vector exchanged with the estimator inside ?gscon (each reply must be inv(M) / inv(M)^H applied to the request, M = Pr*AA*Pc, all precisions); complex pivot growth uses the library's "
             "|re|+|im| modulus (z_abs1), accepted and reported.",
     "technique": "Coq model + vm_compute (PrimFloat) correspondence + exact rational certificate",
 }
@@ -290,7 +290,7 @@ def estimator_replies(c, r, p):
             scale = nrmM * max(abs(v) for v in y) + max(abs(v) for v in x)
             nrmMT = max(sum(abs(M[i][j]) for i in range(n)) for j in range(n))
             scale = max(nrmM, nrmMT) * max(abs(v) for v in y) + max(abs(v) for v in x)
-            if rn > tol * scale:
+            if rn > tol * scale + 64 * n * (2.0 ** -126 if p in "sc" else 2.0 ** -1022):
                 fails.append(("estimator-reply", "?gscon('%s') answered the estimator's request KASE = %d with a vector that is not %s applied to "
                               "the request: residual %.3e against scale %.3e (tolerance %.1e)" % (norm, kase, what, rn, scale, tol)))
                 break
